@@ -277,8 +277,10 @@ func closedWord(m *ModuleInstance) uint64 { return m.Closed.Load() }
 
 //@ func (m *ModuleInstance) FailIfClosed() (err error)
 //@   ensures[error-iff-closed] (err != nil) == (old(closedWord(m)) != 0)
+//@   ensures[closed-word-kept] closedWord(m) == old(closedWord(m))
 //@   ensures[notifies-at-most-once] closeNotified() == old(closeNotified()) || (closeNotified() == old(closeNotified())+1 && old(m.CloseNotifier != nil))
 //@   ensures[deferred-close-completes] old(closedWord(m)) != 0 && old(closedWord(m))&exitCodeFlagMask == exitCodeFlagResourceNotClosed ==> m.CloseNotifier == nil
+//@   modifies m.CloseNotifier, m.Sys, m.CodeCloser, m.MemoryInstance.expBuffer, obj(internalsys.VerifOpenedFiles(m.Sys.FS())), ghost("closeNotified")
 
 // ---- C11 / C04: what an instance owns is allocated by its own instantiation; what it imports is shared.
 //@ prop C11 C04
